@@ -682,16 +682,35 @@ def check_c18(chk, tier):
             f.write(b"\x00\xff not solidity")
         os.makedirs(os.path.join(root, "other"))
         cwds = {"in": proj, "parent": root, "sub": inner, "other": os.path.join(root, "other")}
-        argsof = {"in": ["--path", "."], "parent": ["--path", "proj"], "sub": ["--path", ".."], "other": ["--path", proj]}
-        # the clean report R
-        code, err = bindrive.run_solstat(sb, cwds["other"], argsof["other"])
+        pathof = {"in": ".", "parent": "proj", "sub": "..", "other": proj}
+        one_toml = os.path.join(root, "one.toml")
+        with open(one_toml, "w") as f:
+            f.write('path = "unused"\noptimizations = ["sstore"]\nvulnerabilities = []\nqa = []\n')
+
+        def argsof(c, mode):
+            a = ["--path", pathof[c]]
+            if mode == "one":
+                a += ["--toml", one_toml]
+            return a
+        # the clean reports R (all patterns) and R1 (one pattern)
+        clean = {}
         rfile = os.path.join(cwds["other"], "solstat_report.md")
-        if code != 0 or not os.path.exists(rfile):
-            raise ToolError("clean run failed: exit %s %s" % (code, err))
-        clean = open(rfile, "rb").read()
-        os.remove(rfile)
-        stale = {"junk": b"previous junk\n", "R": clean,
+        for mode in ("full", "one"):
+            code, err = bindrive.run_solstat(sb, cwds["other"], argsof("other", mode))
+            if code != 0 or not os.path.exists(rfile):
+                raise ToolError("clean run (%s) failed: exit %s %s" % (mode, code, err))
+            clean[mode] = open(rfile, "rb").read()
+            os.remove(rfile)
+        if clean["full"] == clean["one"] or not clean["one"]:
+            raise ToolError("the restricted run does not produce a different, non-empty report")
+        stale = {"junk": b"previous junk\n", "R": clean["full"], "long": clean["full"] + b"\n" + clean["full"],
                  "sol": b"pragma solidity ^0.4.0;\ncontract X { function f() public { x++; selfdestruct(msg.sender); } }\n"}
+        cap = 800 if tier == "quick" else 6000
+        if len(hist) > cap + 100:
+            hist = sorted(hist, key=lambda h: json.dumps(h, sort_keys=True))
+            step = len(hist) // cap
+            hist = hist[vlib.seed() % step::step]
+        chk.extra["histories_run"] = len(hist)
         for h in hist:
             for c, p in cwds.items():
                 rp = os.path.join(p, "solstat_report.md")
@@ -700,16 +719,19 @@ def check_c18(chk, tier):
                 if h["init"][c] != "absent":
                     with open(rp, "wb") as f:
                         f.write(stale[h["init"][c]])
-            for step, c in enumerate(h["history"]):
+            visited = set()
+            for step_no, (c, mode) in enumerate(h["history"]):
                 before = bindrive.snapshot(root)
-                code, err = bindrive.run_solstat(sb, cwds[c], argsof[c])
+                code, err = bindrive.run_solstat(sb, cwds[c], argsof(c, mode))
                 after = bindrive.snapshot(root)
                 changed = sorted(p for p in set(before) | set(after) if before.get(p) != after.get(p))
                 rp = os.path.relpath(os.path.join(cwds[c], "solstat_report.md"), root)
                 full = os.path.join(root, rp)
-                is_clean = os.path.exists(full) and open(full, "rb").read() == clean
-                recs.append({"k": "run", "cwd": c, "step": step + 1, "init": h["init"], "history": h["history"],
+                is_clean = os.path.exists(full) and open(full, "rb").read() == clean[mode]
+                recs.append({"k": "run", "cwd": c, "mode": mode, "step": step_no + 1, "init": h["init"], "history": h["history"],
+                             "stale": h["init"][c] if c not in visited else "previous-run",
                              "obs": {"exit": code, "changed": changed, "report_is_clean": is_clean, "report_path": rp}})
+                visited.add(c)
     finally:
         shutil.rmtree(scratch, ignore_errors=True)
     tpath = os.path.join(d, "trace.ndjson")
@@ -719,7 +741,7 @@ def check_c18(chk, tier):
     chk.samples.append(recs[len(recs) // 3])
 
     def describe(rec, why):
-        return ("runfs:%s:cwd=%s:stale=%s" % (why, rec["cwd"], rec["init"][rec["cwd"]] if rec["step"] == 1 else "later-run"),
+        return ("runfs:%s:cwd=%s:stale=%s" % (why, rec["cwd"], rec["stale"]),
                 "run %d of history %s (initial report files %s): exit=%s changed=%s report_is_clean=%s" % (
                     rec["step"], rec["history"], rec["init"], rec["obs"]["exit"], rec["obs"]["changed"], rec["obs"]["report_is_clean"]))
     trace_validate(chk, "TV_RunFs", tpath, describe, timeout=1800)
